@@ -736,6 +736,115 @@ func genCollide(r *rand.Rand, emit func(core.Case), n int) {
 	}
 }
 
+// ---- event bus stream: ABCI events published through the real EventBus, and indexed ----
+
+func genBus(r *rand.Rand, emit func(core.Case), n int) {
+	keys := []string{"transfer.memo", "transfer.to", "a.b"}
+	vals := []string{"", "", "x", "xy", "y"}
+	for c := 0; c < n; c++ {
+		type q struct {
+			ast []cond
+			s   string
+		}
+		var pool []q
+		for i := 0; i < 3+r.Intn(3); i++ {
+			k := pick(r, keys)
+			var cd cond
+			switch r.Intn(5) {
+			case 0, 1:
+				cd = cond{Key: k, Op: "ex", Kind: 'n'}
+			case 2:
+				cd = cond{Key: k, Op: "eq", Kind: 's', S: pick(r, vals)}
+			case 3:
+				cd = cond{Key: k, Op: "ct", Kind: 's', S: pick(r, []string{"", "x", "y"})}
+			default:
+				cd = cond{Key: "tx.height", Op: pick(r, []string{"ge", "le"}), Kind: 'i', S: strconv.Itoa(1 + r.Intn(6))}
+			}
+			ast := []cond{cd}
+			if r.Intn(3) == 0 {
+				ast = append(ast, cond{Key: pick(r, keys), Op: "ex", Kind: 'n'})
+			}
+			if r.Intn(3) == 0 { // what RPC subscribers write; not comparable with the index (it has no tm.event)
+				ast = append([]cond{{Key: "tm.event", Op: "eq", Kind: 's', S: pick(r, []string{"Tx", "NewBlockHeader"})}}, ast...)
+			}
+			pool = append(pool, q{ast, render(ast, r)})
+		}
+		var ops []string
+		type hk struct{ c, q int }
+		subsSeen := map[hk]bool{}
+		clients := []string{"c1", "c2", "c3"}[:1+r.Intn(3)]
+		for ci := range clients {
+			for qi := range pool {
+				if r.Intn(2) == 0 {
+					cp := 60
+					if r.Intn(4) == 0 {
+						cp = 0
+					}
+					ops = append(ops, fmt.Sprintf("bussub c=%s q=%s ast=%s cap=%d", hx(clients[ci]), hx(pool[qi].s), encAst(pool[qi].ast), cp))
+					subsSeen[hk{ci, qi}] = true
+				}
+			}
+		}
+		mkEvents := func() []abci.Event {
+			var evs []abci.Event
+			for e := 0; e < 1+r.Intn(3); e++ {
+				ck := pick(r, keys)
+				typ, key := ck, ""
+				for j := 0; j < len(ck); j++ {
+					if ck[j] == '.' {
+						typ, key = ck[:j], ck[j+1:]
+						break
+					}
+				}
+				ev := abci.Event{Type: typ}
+				for a := 0; a < 1+r.Intn(2); a++ {
+					at := abci.EventAttribute{Key: []byte(key), Value: []byte(pick(r, vals)), Index: r.Intn(7) != 0}
+					if r.Intn(12) == 0 {
+						at.Key = nil
+					}
+					if a > 0 && r.Intn(2) == 0 { // another key of the same event
+						at.Key = []byte(pick(r, []string{"memo", "to", "b"}))
+					}
+					ev.Attributes = append(ev.Attributes, at)
+				}
+				if r.Intn(15) == 0 {
+					ev.Type = ""
+				}
+				evs = append(evs, ev)
+			}
+			return evs
+		}
+		id := 0
+		npub := 3 + r.Intn(6)
+		for p := 0; p < npub; p++ {
+			id++
+			if r.Intn(5) == 0 {
+				ops = append(ops, fmt.Sprintf("bushdr id=%d begin=%s end=%s", id, encTxEvents(mkEvents()), encTxEvents(mkEvents())))
+				continue
+			}
+			evs := mkEvents()
+			tx := []byte(fmt.Sprintf("btx-%d-%d", c, id))
+			ops = append(ops, fmt.Sprintf("addbatch height=%d txs=%s", id, encTxs([]txItem{{Tx: tx, Events: evs}})))
+			ops = append(ops, fmt.Sprintf("bustx id=%d tx=%s events=%s", id, hx(string(tx)), encTxEvents(evs)))
+		}
+		for ci := range clients {
+			for qi := range pool {
+				if subsSeen[hk{ci, qi}] {
+					for k := 0; k < npub+1; k++ {
+						ops = append(ops, fmt.Sprintf("busread c=%s q=%s", hx(clients[ci]), hx(pool[qi].s)))
+					}
+				}
+			}
+		}
+		for qi := range pool {
+			if pool[qi].ast[0].Key != "tm.event" {
+				ops = append(ops, fmt.Sprintf("search q=%s ast=%s", hx(pool[qi].s), encAst(pool[qi].ast)))
+			}
+		}
+		emit(core.Case{Kind: "eventbus", Ops: ops})
+	}
+}
+
 func gen(r *rand.Rand, tier string, emit func(core.Case)) {
 	n := 150
 	if tier == "thorough" {
@@ -751,6 +860,7 @@ func gen(r *rand.Rand, tier string, emit func(core.Case)) {
 	genBlockIndex(r, emit, n/2, idxHostile, "blockindex-hostile")
 	genRange(r, emit, n)
 	genCollide(r, emit, n/2)
+	genBus(r, emit, n)
 	genService(r, emit, n/2, idxClean, "service-clean")
 	genService(r, emit, n/3, idxHostile, "service-hostile")
 }
